@@ -145,16 +145,29 @@ where T: Ring + Bridge, for<'x> &'x T: RingOps<T>, T::O: OEuc {
                 hist.push(format!("m{} = dense ops on m{i}", pool.len()));
                 let mut mo = ao.clone();
                 let mut script: Vec<(usize, usize, usize, T::O)> = vec![];
-                if m >= 2 && n >= 2 { for _ in 0..rng.below(4) { script.push((rng.below(4), rng.below(m.min(n)), rng.below(m.min(n)), T::gen(rng, Mag::Tiny))) } }
+                if m >= 2 && n >= 2 { for _ in 0..rng.below(5) { script.push((rng.below(8), rng.below(m.min(n)), rng.below(m.min(n)), T::gen(rng, Mag::Tiny))) } }
                 for (k, x, y, c) in &script { match k {
                     0 => mo.swap_rows(*x, *y), 1 => mo.swap_cols(*x, *y),
                     2 => { if x != y { mo.add_row(*x, *y, c) } }
-                    _ => { if x != y { mo.add_col(*x, *y, c) } }
+                    3 => { if x != y { mo.add_col(*x, *y, c) } }
+                    4 => { for j in 0..n { let v = mo.at(*x, j).mul(c); mo.set(*x, j, v) } }       // mul_row
+                    5 => { for i in 0..m { let v = mo.at(i, *x).mul(c); mo.set(i, *x, v) } }       // mul_col
+                    6 => { if x != y { // left_elementary [[c, 1], [1, 0]] on rows x, y
+                        for j in 0..n { let (ri, rj) = (mo.at(*x, j).clone(), mo.at(*y, j).clone()); mo.set(*x, j, ri.mul(c).add(&rj)); mo.set(*y, j, ri) } } }
+                    _ => { if x != y { // right_elementary [[c, 1], [1, 0]] on columns x, y
+                        for i in 0..m { let (ci, cj) = (mo.at(i, *x).clone(), mo.at(i, *y).clone()); mo.set(i, *x, ci.mul(c).add(&cj)); mo.set(i, *y, ci) } } }
                 } }
                 let sc: Option<Vec<(usize, usize, usize, T)>> = script.iter().map(|(k, x, y, c)| T::try_from_o(c).map(|v| (*k, *x, *y, v))).collect();
                 match sc { None => Ok(None), Some(sc) => guarded(|| {
                     let mut d: Mat<T> = a.clone().into_dense();
-                    for (k, x, y, c) in &sc { match k { 0 => d.swap_rows(*x, *y), 1 => d.swap_cols(*x, *y), 2 => { if x != y { d.add_row_to(*x, *y, c) } } _ => { if x != y { d.add_col_to(*x, *y, c) } } } }
+                    let (one, zero) = (T::one(), T::zero());
+                    for (k, x, y, c) in &sc { match k {
+                        0 => d.swap_rows(*x, *y), 1 => d.swap_cols(*x, *y),
+                        2 => { if x != y { d.add_row_to(*x, *y, c) } } 3 => { if x != y { d.add_col_to(*x, *y, c) } }
+                        4 => d.mul_row(*x, c), 5 => d.mul_col(*x, c),
+                        6 => { if x != y { d.left_elementary([c, &one, &one, &zero], *x, *y) } }
+                        _ => { if x != y { d.right_elementary([c, &one, &one, &zero], *x, *y) } }
+                    } }
                     Some((d.into_sparse(), mo))
                 }) }
             }
